@@ -1589,11 +1589,22 @@ def r204(ctx, repo):
           and f.name == "__getattr__"]
     fwd = set()
     if ga:
+        res = name_resolver(repo, FB, ga[0])
         for n in walk(ga[0]):
-            if isinstance(n, ast.Compare) and isinstance(n.ops[0], ast.In) \
-                    and isinstance(n.comparators[0], (ast.List, ast.Tuple,
-                                                      ast.Set)):
-                fwd |= {const_str(e) for e in n.comparators[0].elts}
+            if isinstance(n, ast.Compare) and isinstance(n.ops[0], ast.In):
+                lst = n.comparators[0]
+                hops = 0
+                while isinstance(lst, ast.Name) and hops < 4:
+                    # single-assignment local or module-level constant
+                    lst = res(lst.id)
+                    hops += 1
+                if isinstance(lst, (ast.List, ast.Tuple, ast.Set)):
+                    names = {const_str(e) for e in lst.elts}
+                    if None in names:
+                        raise AnalysisError(
+                            "BasinProxyFeature.__getattr__: non-literal "
+                            "entry in the forwarding list")
+                    fwd |= names
         rets = [n for n in walk(ga[0]) if isinstance(n, ast.Return)]
         guarded = all(isinstance(r.parent, ast.If) for r in rets)
         if not fwd or not guarded:
@@ -1823,6 +1834,24 @@ def _summary_table_min_is_max(src):
     return _summary_table_helper(src, min_func="np.nanmax")
 
 
+def _forwarding_tuple(src, extra=""):
+    old = ('        if item in [\n            "dtype",\n        ]:\n'
+           "            return getattr(self.feat_obj, item)\n")
+    head = "\n\nclass BasinProxyFeature("
+    if src.count(old) != 1 or src.count(head) != 1:
+        return src
+    src = src.replace(
+        old, "        if item in _PROXY_FORWARDED_ATTRIBUTES:\n"
+        "            return getattr(self.feat_obj, item)\n")
+    return src.replace(
+        head, '\n\n_PROXY_FORWARDED_ATTRIBUTES = (\n    "dtype",\n'
+        + extra + ")\n" + head)
+
+
+def _forwarding_tuple_with_mean(src):
+    return _forwarding_tuple(src, extra='    "mean",\n')
+
+
 MUTANTS = [
     # R20.1
     ("writer: max of a block with np.max", WR,
@@ -1921,6 +1950,8 @@ MUTANTS = [
     # R20.4
     ("BasinProxyFeature forwards the summaries", FB,
      _proxy_forwards_summaries, "R20.4"),
+    ("module-level forwarding tuple lists 'mean'", FB,
+     _forwarding_tuple_with_mean, "R20.4"),
     ("ChildScalar.max taken from the parent feature", HE,
      ('return self._fetch_ufunc_attr("max", np.nanmax)',
       "return self.child.hparent[self.feat].max()"), "R20.4"),
@@ -2035,6 +2066,8 @@ TWINS = [
       )),
     ("H5ScalarEvent summaries through _summary() and a module-level table",
      EV, _summary_table_helper),
+    ("forwarding list hoisted into a module-level tuple", FB,
+     _forwarding_tuple),
 ]
 
 # mutants that re-introduce the repaired defects (apply to the fixed tree)
